@@ -109,7 +109,15 @@ P = {
          "subtree'; the merged values and wildcard semantics in full are not decided.",
          TRUST,
          "§3 C16"),
- "C17": (False, "", "", "", "§3 C17"),
+ "C17": (True,
+         "interprocedural typestate over the parser's input cursor + linear bounds prover (E3) + flag/branch agreement on SSA (custom analyzer)",
+         "Decides that the flag-value parser inspects the next byte only at whitespace-skipped positions (every read of input[0] dominated by "
+         "ignoreWhitespace() with no possible write of input in between; entry reads inherit the state from all call sites) — so whitespace that JSON "
+         "allows around structural characters can never cause a rejection — that all of the parser's indexing is in bounds, and that each syntax "
+         "branch is entered only under its first byte and its Config flag (IgnoreCommas selects the stop set). Holds for all documents and flag "
+         "combinations. That the data returned equals the JSON document (number syntax, escapes, string termination) is value-level and not decided.",
+         TRUST + "strconv.Unquote/Parse* trusted.",
+         "§3 C17"),
  "C18": (True,
          "sibling-shape comparison on SSA + def-use plumbing of source metadata (custom analyzer)",
          "Decides that the yaml/json/hjson front-ends are structurally identical siblings (decode into a local, return the decoder error, "
